@@ -72,6 +72,18 @@ theorem direct_call_breaks_serial :
 
 /-! ## the generated dispatch graph -/
 
+/- diagnostic only: names the offending functions in the build log when the obligation below fails -/
+#eval show IO Unit from do
+  let bad := offenders graph
+  let unr := unreviewed graph
+  let off := offLoop graph
+  unless bad.isEmpty do
+    throw <| IO.userError s!"C04 entry_only_via_loop fails: service code is reached without passing through a queue from {bad}"
+  unless unr.isEmpty do
+    throw <| IO.userError s!"C04 invocation_points_reviewed fails: not in the reviewed description: {unr}"
+  unless off.isEmpty do
+    throw <| IO.userError s!"C04 invocations_on_loop fails: invocation point not reached from a consumer loop: {off}"
+
 /-- all four Boolean obligations over the graph regenerated from the current Go source,
 evaluated once by the kernel (the quantifier is the finite graph) -/
 theorem graph_checks : allChecks graph = true := by decide +kernel
